@@ -570,6 +570,8 @@ impl Receiver {
     /// Already sent message will still be received.
     pub async fn close(&mut self) {
         if !self.closed {
+            // A credit return that is still waiting for a slot in the same queue precedes us.
+            self.credits.return_flush().await;
             let _ = self.tx.send(PortEvt::ReceiverClosed { local_port: self.local_port }).await;
             self.closed = true;
         }
